@@ -29,6 +29,10 @@ enum Step {
   /// take a clone now; it is observed (and compared with the model of the
   /// ops so far) at the end of the history, and also right away
   Clone,
+  /// continue the history on another of the objects created so far (0 = the
+  /// original, k = the k-th clone; taken modulo their number): the object and
+  /// its clones are then mutated and observed in turn
+  Switch(usize),
 }
 
 #[derive(Clone, Debug, Serialize, Deserialize)]
@@ -43,8 +47,8 @@ pub fn def() -> PropDef {
     id: "C05",
     gen,
     check,
-    panic_policy: PanicPolicy::Count,
-    rule: "random UTF-8 inner texts and histories (<=12 steps quick / <=30 thorough) mixing replace/insert/*_with_enforce calls (equal keys, overlaps, nesting, all enforce values, positions beyond the end) with observer calls (source, rope, buffer, size, to_writer, map, hash, stream, Debug, clone); every observation is compared with the splice model of the replacement list at that moment; non-trivial = history has the pattern mutate, observe, mutate, observe with >=2 replacements; distinct = case fingerprint",
+    panic_policy: PanicPolicy::Violation,
+    rule: "random UTF-8 inner texts and histories (<=12 steps quick / <=30 thorough) mixing replace/insert/*_with_enforce calls (equal keys, overlaps, nesting, all enforce values, positions beyond the end) with observer calls (source, rope, buffer, size, to_writer, map, hash, stream, Debug, clone) and with switches between the object and the clones taken so far (each continues with its own replacement list); every observation is compared with the splice model of the replacement list at that moment; non-trivial = history has the pattern mutate, observe, mutate, observe with >=2 replacements; distinct = case fingerprint",
     cases: |t| match t {
       Tier::Quick => 300_000,
       Tier::Thorough => 4_000_000,
@@ -121,7 +125,13 @@ fn gen(rng: &mut Rng, tier: Tier) -> Value {
         }
       }
       5..=8 => steps.push(Step::Observe(rng.below(11) as u8)),
-      _ => steps.push(Step::Clone),
+      _ => {
+        if rng.chance(1, 2) {
+          steps.push(Step::Clone)
+        } else {
+          steps.push(Step::Switch(rng.below(4)))
+        }
+      }
     }
   }
   steps.push(Step::Observe(0));
@@ -214,43 +224,60 @@ fn check(case: &Value, obs: &mut Obs) {
   } else {
     RawSource::from(c.inner.clone()).boxed()
   };
-  let mut r = ReplaceSource::new(inner);
-  let mut ops: Vec<Op> = Vec::new();
-  let mut clones: Vec<(ReplaceSource<BoxSource>, String, usize)> = Vec::new();
+  // objs[0] is the original, the others are clones taken mid-history; each
+  // has its own replacement list from the moment it was cloned
+  let mut objs: Vec<(ReplaceSource<BoxSource>, Vec<Op>, String)> =
+    vec![(ReplaceSource::new(inner), Vec::new(), "object".to_string())];
+  let mut cur = 0usize;
+  let mut switched = false;
   let mut pattern = 0; // progress through mutate, observe, mutate, observe
   for (i, st) in c.steps.iter().enumerate() {
     match st {
       Step::Mutate(op) => {
-        apply_op(&mut r, op);
-        ops.push(op.clone());
+        apply_op(&mut objs[cur].0, op);
+        objs[cur].1.push(op.clone());
         if pattern == 0 || pattern == 2 {
           pattern += 1;
         }
       }
       Step::Observe(k) => {
-        let expect = splice_text(&c.inner, &ops);
-        observe(&r, *k, &expect, obs, "object", i);
+        let expect = splice_text(&c.inner, &objs[cur].1);
+        observe(&objs[cur].0, *k, &expect, obs, &objs[cur].2, i);
         if pattern == 1 || pattern == 3 {
           pattern += 1;
         }
       }
       Step::Clone => {
-        let expect = splice_text(&c.inner, &ops);
-        let cl = r.clone();
+        let expect = splice_text(&c.inner, &objs[cur].1);
+        let cl = objs[cur].0.clone();
         observe(&cl, 0, &expect, obs, "fresh clone", i);
-        clones.push((cl, expect, i));
+        let ops = objs[cur].1.clone();
+        objs.push((cl, ops, format!("clone taken at step {i}")));
+      }
+      Step::Switch(k) => {
+        let next = k % objs.len();
+        if next != cur {
+          switched = true;
+        }
+        cur = next;
       }
     }
   }
-  // clones taken mid-history keep the state of that moment
-  for (cl, expect, at) in &clones {
-    observe(cl, 0, expect, obs, &format!("clone taken at step {at}"), c.steps.len());
-    observe(cl, 1, expect, obs, &format!("clone taken at step {at}"), c.steps.len());
+  // every object (clones keep the state of the moment they were taken plus
+  // what was done to them since): all text observers, twice round so that an
+  // observation of one object lies between two observations of another
+  for round in 0..2 {
+    for (r, ops, who) in &objs {
+      let expect = splice_text(&c.inner, ops);
+      for k in if round == 0 { &[0u8, 1, 2, 3, 4, 8, 9][..] } else { &[0u8, 1][..] } {
+        observe(r, *k, &expect, obs, &format!("final {who}"), c.steps.len());
+      }
+    }
   }
-  // final: all text observers
-  let expect = splice_text(&c.inner, &ops);
-  for k in [0u8, 1, 2, 3, 4, 8, 9] {
-    observe(&r, k, &expect, obs, "final", c.steps.len());
+  let ops: Vec<Op> = objs.iter().flat_map(|o| o.1.iter().cloned()).collect();
+  let clones = &objs[1..];
+  if switched {
+    obs.class("object_and_clones_used_in_turn");
   }
   let keys_collide = ops.iter().enumerate().any(|(i, a)| {
     ops[i + 1..]
@@ -260,7 +287,7 @@ fn check(case: &Value, obs: &mut Obs) {
   if keys_collide {
     obs.class("equal_keys");
   }
-  if ops.len() > 20 {
+  if objs.iter().any(|o| o.1.len() > 20) {
     obs.class("more_than_20_replacements(unstable sort visible)");
   }
   if ops.iter().any(|o| o.enforce != 1) {
